@@ -10,7 +10,7 @@
    nesting depth — so the theorems above quantify over exactly the trees the parser can produce. *)
 From Verif Require Import Spec.DocDomain Base.Str Base.Outcome Model.Ast Model.Token Model.Parser Model.Listener
   Spec.Sem Proofs.ListenerSem Proofs.ListenerFile Proofs.ParserShape Proofs.ParserComplete Model.Lexer Model.Transform Proofs.LexRender
-  Proofs.DeclRoundTrip Proofs.DocLex Proofs.DocParse Proofs.DocNatural Proofs.DocChars Proofs.DocSem Proofs.DocRoundTrip Proofs.LexPartition.
+  Proofs.DeclRoundTrip Proofs.DocLex Proofs.DocParse Proofs.DocNatural Proofs.DocChars Proofs.DocSem Proofs.DocRoundTrip Proofs.LexPartition Proofs.DocLayout.
 
 (* 1. a non-leading operand (a rewrite or a parenthesised group, nested to any depth) appends exactly its
       denotation and leaves the pending operator, the restrictions and the rewrite stack as they were *)
@@ -83,3 +83,32 @@ Proof. exact canonical_document_accepted. Qed.
 Theorem C03_tokens_partition_the_text : forall s,
   snd (lex_all s) = [] -> concat (map ttext (fst (lex_all s))) = s.
 Proof. exact lex_all_partition. Qed.
+
+(* 10. EVERY LAYOUT WITH THE SAME TOKENS, characters included.  [relay] (Proofs/LexFit.v) relates two token lists that
+       differ only in the texts of their WHITESPACE tokens (any non-empty run of blanks and tabs) and of their NEWLINE
+       tokens (a line feed, then any line feeds, blanks and tabs: indentation, blank lines).  For every such re-layout [L]
+       of the canonical tokens of a document the lexer model returns exactly [L], without error, and the parser model the
+       tree that was written *)
+Theorem C03_every_layout_lexes_to_its_tokens_and_parses : forall v ts L,
+  std_version v = true -> Forall type_lex_ok ts -> Forall type_ok ts ->
+  Forall2 relay (kts (ctoks_doc v ts)) L ->
+  let s := concat (map snd L) in
+  snd (lex s) = [] /\
+  map (fun t => (tk t, ttext t)) (fst (lex s)) = L /\
+  exists f', parse (fst (lex s)) = Some f' /\ file_map forget2 f' = doc_file v ts.
+Proof. exact every_layout_reads_back. Qed.
+
+(* 11. ... and every text [d] that the pre-pass turns into such a layout (so: besides indentation and blank lines also comment
+       lines, trailing comments and trailing blanks) is accepted and yields exactly the model written *)
+Theorem C03_every_layout_yields_the_model_written : forall v ts L d,
+  std_version v = true -> Forall type_lex_ok ts -> Forall type_ok ts -> distinct_decls (doc_file v ts) ->
+  Forall2 relay (kts (ctoks_doc v ts)) L -> prepass d = concat (map snd L) ->
+  exists exts md, dsl_to_model d = DOk (sem_file (doc_file v ts)) exts md.
+Proof. exact every_layout_accepted. Qed.
+
+(* 12. the same with a decidable domain and computable texts — what the extracted model evaluates on every run (wire op 209):
+       the document written for a covered model with the run [w] for every blank and the line break [n] for every line
+       break denotes the model in canonical form *)
+Theorem C03_every_layout_decidable : forall w n m, layout_okb w n m = true ->
+  exists exts md, dsl_to_model (layout_text w n m ++ [10]) = DOk (canonical m) exts md.
+Proof. exact every_layout_decidable. Qed.
